@@ -157,7 +157,7 @@ def main(tier, replay=None):
     base = C.scratch_dir("c09")
     if replay:
         return do_replay(replay, ucg, base)
-    cfgs = ["c09_pos", "c09_graph_q", "c09_twin"] if tier == "quick" else ["c09_pos", "c09_graph_t", "c09_twin"]
+    cfgs = ["c09_pos", "c09_graph_q", "c09_twin"] if tier == "quick" else ["c09_pos", "c09_graph_t", "c09_twin", "c09_graph4"]
     budget = 900 if tier == "quick" else 6000
     opendevs = B.open_deviations() & DEVS
     states = trans = 0
@@ -180,6 +180,24 @@ def main(tier, replay=None):
             cmds.append(r2.cmd)
             for c in r2.replays:
                 devcases.setdefault(B.case_key(c), []).append(c)
+    if tier == "thorough":
+        # projects of 6 and 8 files in the two directories, random graphs (cyclic ones included), every position
+        for nf, n in ((6, 1500), (8, 1000)):
+            fs = ", ".join(str(i) for i in range(1, nf + 1))
+            sc, sdv, st2, tr2 = B.sampled_cases(
+                gd, "c09_%d" % nf, nf,
+                "{ [f \\in 1..%d |-> IF f = 1 THEN WithOut(b[1]) ELSE b[f]] : b \\in RandomSubset(%d, [1..%d -> "
+                "[1..2 -> ImpA({%s}, {1, 2, 3}, Positions \\ {\"failMsg\"}) \\cup {Lit}]]) }" % (nf, n, nf, fs),
+                "OrdersFirst",
+                '{ [dir |-> << %s >>, nm |-> << %s >>] }' % (", ".join(str(i % 2) for i in range(nf)),
+                                                            ", ".join('"%s"' % "abcdefgh"[i] for i in range(nf))),
+                "CmdBuild", "CwdAll", 1, opendevs, cmds)
+            states += st2
+            trans += tr2
+            for k, c in sc.items():
+                cases.setdefault(k, c)
+            for k, v in sdv.items():
+                devcases.setdefault(k, []).extend(v)
     # group the (project, cwd) cases by project: a chosen project is built from every cwd explored
     groups = {}
     for k, c in cases.items():
